@@ -4,3 +4,6 @@ open Amoco.Fmt.Props20
 #print axioms read_program_total
 #print axioms read_program_elf_first
 #print axioms magic_disjoint
+#print axioms hex_alloc_bounded
+#print axioms srec_alloc_bounded
+#print axioms hex_decode_bounded
